@@ -184,6 +184,9 @@ LANDMARKS = [   # the measure-zero behaviours named in C11S_Model.v / C11S_Prope
     dict(den=1, zs=[1, 2, 3, 100], med=False, sigma=Fraction(1), sigma_lower=Fraction(0), maxiters=0),
     dict(den=1, zs=[7], med=True, sigma=Fraction(3), maxiters=5),
     dict(den=4, zs=[-2, -2, -1, 0, 0, 0, 0, 400], med=True, sigma=Fraction(3), maxiters=None),
+    # re-admission: the 60s are rejected in iteration 1 but inside the last bounds (not an accumulated mask)
+    dict(den=1, zs=[2, 78, 49, 49, 119, 85, 60, 60], med=True, sigma=Fraction(3), sigma_lower=Fraction(3),
+         sigma_upper=Fraction(1, 2), maxiters=None),
 ]
 
 
